@@ -12,6 +12,7 @@ import (
 	"regexp"
 	"sort"
 	"strings"
+	"sync"
 	"syscall"
 	"testing"
 
@@ -335,6 +336,75 @@ func c16Binary(args []string, bases []string) (ds []disc) {
 	return ds
 }
 
+// c16Stress: several clients at once, each working on its own bucket, named in the Host header.
+// Only one client writes to a bucket, so whatever the interleaving each of its reads returns what it
+// wrote last; a request that lands in another client's bucket shows up as a foreign body, a missing
+// key or a changed final state.
+func c16Stress(cs c16Case, clients, rounds int) (ds []disc) {
+	st := backends.Must(backends.Mem, c16Opts(cs))
+	defer st.Close()
+	name := func(g int) string { return fmt.Sprintf("client-%d", g) }
+	for g := 0; g < clients; g++ {
+		if err := st.Backend.CreateBucket(name(g)); err != nil {
+			panic(err)
+		}
+		v := "object of " + name(g) + " #0"
+		if _, err := st.Backend.PutObject(name(g), "key", map[string]string{}, strings.NewReader(v), int64(len(v))); err != nil {
+			panic(err)
+		}
+	}
+	how := fmt.Sprintf("mode=%s bases=%v base=%s, %d clients x %d rounds, each on its own bucket in host form: ", cs.Mode, cs.Bases, cs.Base, clients, rounds)
+	var mu sync.Mutex
+	var wg sync.WaitGroup
+	for g := 0; g < clients; g++ {
+		wg.Add(1)
+		go func(g int) {
+			defer wg.Done()
+			host := name(g) + "." + cs.Base
+			cur := "object of " + name(g) + " #0"
+			bad := func(kind, f string, a ...interface{}) {
+				mu.Lock()
+				if len(ds) < 5 {
+					ds = append(ds, dsc(kind, how+f, a...)...)
+				}
+				mu.Unlock()
+			}
+			for i := 1; i <= rounds; i++ {
+				switch i % 3 {
+				case 0:
+					cur = fmt.Sprintf("object of %s #%d", name(g), i)
+					if r := s3x.Do(st.Handler, &s3x.Req{Method: "PUT", Host: host, Path: "/key", Body: []byte(cur)}); r.Status != 200 {
+						bad("stress-status", "PUT for %s answered %s", name(g), r)
+						return
+					}
+				case 1:
+					if r := s3x.Do(st.Handler, &s3x.Req{Method: "GET", Host: host, Path: "/key"}); r.Status != 200 || string(r.Body) != cur {
+						bad("stress-wrong-bucket", "GET for %s answered %d %q; the only writer of that bucket last stored %q", name(g), r.Status, trunc(r.Body, 60), cur)
+						return
+					}
+				default:
+					if r := s3x.Do(st.Handler, &s3x.Req{Method: "HEAD", Host: host, Path: "/key"}); r.Status != 200 || r.Header.Get("ETag") != etagOf([]byte(cur)) {
+						bad("stress-wrong-bucket", "HEAD for %s answered %d ETag %s; the only writer of that bucket last stored %q (ETag %s)", name(g), r.Status, r.Header.Get("ETag"), cur, etagOf([]byte(cur)))
+						return
+					}
+				}
+			}
+			obj, err := st.Backend.GetObject(name(g), "key", nil)
+			if err != nil {
+				bad("stress-wrong-bucket", "bucket %s: the key cannot be read at the end: %v", name(g), err)
+				return
+			}
+			body, _ := io.ReadAll(obj.Contents)
+			obj.Contents.Close()
+			if string(body) != cur {
+				bad("stress-wrong-bucket", "bucket %s holds %q at the end; its only writer last stored %q", name(g), body, cur)
+			}
+		}(g)
+	}
+	wg.Wait()
+	return ds
+}
+
 func c16Replay(check string, raw json.RawMessage) ([]disc, error) {
 	var cs c16Case
 	if err := json.Unmarshal(raw, &cs); err != nil {
@@ -357,6 +427,10 @@ func c16Replay(check string, raw json.RawMessage) ([]disc, error) {
 	}
 	if check == "location" {
 		return c16Location(cs, cs.FallbackHost), nil
+	}
+	if check == "stress" {
+		// schedule-dependent: a re-run explores other interleavings of the same workload
+		return c16Stress(cs, 8, 600), nil
 	}
 	ds, _ := c16Exec(cs)
 	return ds, nil
@@ -414,7 +488,7 @@ func TestC16(t *testing.T) {
 		Level: "exploration",
 		Rule: "cases = (host-bucket option | host-bucket-base list with/without port, one/several bases, with or without the auto-bucket option, setup program, request stream); twin deterministic stacks (fixed clock, fixed version seed): every logical request of the routed-surface grammar (biased to well-formed, bucket names single DNS labels) " +
 			"is sent as /<bucket>/<key>?q to the path-style stack and as Host: <bucket>.<base> + /<key>?q to the host-style stack; responses (status, headers, body; LastModified and Location normalised, Location format checked separately) and final states must be equal; " +
-			"hosts that are not <single label>.<base> must be routed path-style; extra leading/trailing slashes must not change the addressed bucket/key; non-trivial = a request with an object key and >= 1 sub-resource, or a fallback host; distinct by (mode, request)",
+			"hosts that are not <single label>.<base> must be routed path-style; eight clients at once, each reading back what it alone writes to its own bucket in host form (also under the race build of C07); extra leading/trailing slashes must not change the addressed bucket/key; non-trivial = a request with an object key and >= 1 sub-resource, or a fallback host; distinct by (mode, request)",
 		Replay: c16Replay,
 		Run:    c16Run,
 	})
@@ -553,6 +627,12 @@ func c16Run(t *testing.T, c *evid.Collector) {
 			cs.Requests = svc
 			ds, sent := c16Exec(cs)
 			record("twin", cs, ds, sent, "fixed-service-looking-keys")
+		}
+		// several clients at once, each with its own bucket in the Host header
+		for _, m := range c16Modes {
+			cs := m
+			cs.Requests = []lreq{{Method: "PUT", Bucket: "client-N", Key: "key", Family: "stress"}, {Method: "GET", Bucket: "client-N", Key: "key", Family: "stress"}, {Method: "HEAD", Bucket: "client-N", Key: "key", Family: "stress"}}
+			record("stress", cs, c16Stress(cs, 8, evid.Scale(300, 3000)), 8*evid.Scale(300, 3000), "fixed-stress")
 		}
 		// servers that create buckets on demand do so for the same names in either form of addressing
 		for _, m := range c16AutoModes {
